@@ -575,7 +575,9 @@ static void RunHistory(const std::string & hid, int nsess, const std::vector<mj:
          AddKeys(*m(), si.keys, net.w, steps[k]["df"].truthy());
          if (si.forge == "nonstr") (void) m()->AddInt32(PR_NAME_SESSION, 7);
          else if (si.forge != "none") (void) m()->AddString(PR_NAME_SESSION, Conc(si.forge, net.w).c_str());
-         (void) net.cs[si.s]->gw.AddOutgoingMessage(m);
+         // written to the socket at once (the server does not run before the whole burst is written): the order in which the server reads the
+         // Messages of a burst must not depend on the client's own outgoing queue, which is the same class as the queue under test
+         (void) net.cs[si.s]->gw.AddOutgoingMessage(m); net.cs[si.s]->Flush();
          mj::Value ev = steps[k]; ev.set("n", mj::Value::Int(si.n)); LOG(ev);
          sends.push_back(si);
       }
